@@ -683,29 +683,40 @@ APALACHE = {
 }
 
 
-def tlaps_c05():
-    """Machine-checked proof (TLAPS) that one add_record step, as a relation on record sets over uninterpreted strings
-    (spec/StepRel.tla), preserves one-owner-per-prefix and the freshness of the prefix map -- for converters of ANY size.
-    mc/MC_Incr.tla (Prop_Bridge) checks that the operational specification's steps are such steps."""
+TLAPS = {
+    "C05": {"module": "C05_Step.tla",
+            "theorems": ["Step: Inv /\\ Next => OneOwner(recs')", "StepIndex: Inv /\\ Next => pm' = PMOf(recs')"],
+            "bridge": "Prop_Bridge on mc/MC_Incr.tla: every add step of Conv!AddRecord is a step of StepRel"},
+    "C09": {"module": "C09_Step.tla",
+            "theorems": ["Known: nothing lost, nothing invented", "Together: records of an input stay in one record", "Earlier: a step never changes an existing canonical pair",
+                         "Canonical (case sensitive): every canonical pair comes from an input record it contains",
+                         "NoCaseDup (case insensitive): no two records hold names equal up to case",
+                         "(one owner per prefix and prefix-map freshness of every intermediate converter: C05_Step, a chain step is a StepRel step with merge = TRUE)"],
+            "bridge": "Derive!ChainRecs is by definition the fold of Conv!AddRecord(merge = TRUE) over the inputs' records; Prop_Bridge on mc/MC_Incr.tla: every such step is a StepRel step"},
+}
+
+
+def tlaps_proof(pid):
+    """Machine-checked proofs (TLAPS) about one add_record / chain step written as a relation on record SETS over
+    uninterpreted strings (spec/StepRel.tla) -- for converters of ANY size."""
     import re
     import shutil
     import subprocess
+    cfg = TLAPS[pid]
     d = tlc.scratch("tlaps")
     try:
-        for fn in ("StepRel.tla", os.path.join("tlaps", "C05_Step.tla")):
+        for fn in ("StepRel.tla", os.path.join("tlaps", cfg["module"])):
             shutil.copy(os.path.join(tlc.SPEC, fn), d)
         t = time.time()
         try:
-            p = subprocess.run(["tlapm", "C05_Step.tla"], cwd=d, stdout=subprocess.PIPE, stderr=subprocess.STDOUT, text=True, timeout=900)
+            p = subprocess.run(["tlapm", cfg["module"]], cwd=d, stdout=subprocess.PIPE, stderr=subprocess.STDOUT, text=True, timeout=900)
         except (subprocess.TimeoutExpired, FileNotFoundError) as e:
-            return {"module": "spec/tlaps/C05_Step.tla", "outcome": f"not run ({type(e).__name__}; not relied upon)"}
+            return {"module": "spec/tlaps/" + cfg["module"], "outcome": f"not run ({type(e).__name__}; not relied upon)"}
         m = re.search(r"All (\d+) obligations? proved", p.stdout)
         if not m:
-            raise MachineryError("TLAPS no longer proves spec/tlaps/C05_Step.tla (the step relation or the proof was changed)\n" + p.stdout[-1200:])
-        return {"module": "spec/tlaps/C05_Step.tla", "theorems": ["Step: Inv /\\ Next => OneOwner(recs')", "StepIndex: Inv /\\ Next => pm' = PMOf(recs')"],
-                "obligations_proved": int(m.group(1)), "wall_s": round(time.time() - t, 1),
-                "bound": "none (any number of records, uninterpreted strings and case folding)",
-                "bridge": "Prop_Bridge on mc/MC_Incr.tla: every add step of Conv!AddRecord is a step of StepRel"}
+            raise MachineryError(f"TLAPS no longer proves spec/tlaps/{cfg['module']} (the step relation or the proof was changed)\n" + p.stdout[-1200:])
+        return {"module": "spec/tlaps/" + cfg["module"], "theorems": cfg["theorems"], "obligations_proved": int(m.group(1)), "wall_s": round(time.time() - t, 1),
+                "bound": "none (any number of records, uninterpreted strings and case folding)", "bridge": cfg["bridge"]}
     finally:
         shutil.rmtree(d, ignore_errors=True)
 
@@ -923,7 +934,7 @@ def check(pid, tier, seed):
                     lines.append(f"VIOLATION property={pid} replay={path}   # clause {key} in trace {tid} recorded from the repository's own tests")
     apa = apa_future.result() if apa_future else None
     apa_pool.shutdown()
-    proof = tlaps_c05() if pid == "C05" else None
+    proof = tlaps_proof(pid) if pid in TLAPS else None
     n_ans = sum(len(r["a"]) for t in batch["traces"] for e in t["events"] for r in e["pt"] + e["ppt"])
     n_events = sum(len(t["events"]) for t in batch["traces"])
     kinds = {}
